@@ -49,3 +49,7 @@ pub open spec fn deref_seq<T>(s: Seq<&T>) -> Seq<T> { s.map_values(|x: &T| *x) }
 pub assume_specification<'a, T: Copy + 'a, A: core::alloc::Allocator, I: IntoIterator<Item = &'a T>> [<Vec<T, A> as Extend<&'a T>>::extend] (v: &mut Vec<T, A>, it: I)
     ensures final(v)@ == old(v)@ + deref_seq(into_iter_seq(it));
 pub broadcast axiom fn ax_into_iter_seq_arr32ref<'a>(s: &'a [u8; 32]) ensures deref_seq(#[trigger] into_iter_seq(s)) == s@;
+// u32::leading_zeros: a value below 2^31 has at least one leading zero bit (vstd's own axiom about the closed specification function could not be put to use)
+pub axiom fn ax_lz32_below_top_bit(x: u32)
+    requires x < 0x8000_0000u32
+    ensures vstd::std_specs::bits::u32_leading_zeros(x) >= 1;
